@@ -931,16 +931,16 @@ def _unique_inds(ar):
 
     """
     ar = np.asanyarray(ar).flatten()
-    ar.sort()
-    aux = ar
+    # Find unique values in a sorted copy, indices refer to the original order
+    aux = np.sort(ar)
 
     mask = np.empty(aux.shape, dtype=np.bool_)
     mask[:1] = True
     mask[1:] = aux[1:] != aux[:-1]
 
-    ar_inds = [np.where(ar == ii)[0] for ii in ar[mask]]
+    ar_inds = [np.where(ar == ii)[0] for ii in aux[mask]]
 
-    return ar[mask], ar_inds
+    return aux[mask], ar_inds
 
 
 ###################################################
